@@ -34,13 +34,18 @@ def impl(case):
     if count is not None and case.get('countkind', 'py') != 'py':
         count = getattr(np, case['countkind'])(count)        # the count as a NumPy integer scalar
     req = {'list': list, 'tuple': tuple, 'array': lambda r: np.array(r, dtype=np.int64)}[case.get('reqkind', 'list')](req)
+    for pc in case.get('pre', []):
+        # earlier calls on the SAME selector (other subsets / counts / chunk restriction): a selection must not
+        # depend on what the selector was asked before
+        sel(pc['count'], list(pc['req']), subset_chunks=pc['subset_chunks'],
+            subset_spikes=None if pc.get('subset') is None else np.array(pc['subset'], dtype=np.int64))
     out = sel(count, req, subset_chunks=case['subset_chunks'], subset_spikes=subset)
     return dict(out=[int(x) for x in out], kept=[int(round(float(x) * g)) for x in sel.chunks_kept],
                 dtype=str(np.asarray(out).dtype))
 
 
 def model_query(case, impl_res):
-    q = {k: v for k, v in case.items() if k not in ('tdtype', 'rs', 'gscale', 'countkind', 'reqkind', 'scdtype')}
+    q = {k: v for k, v in case.items() if k not in ('tdtype', 'rs', 'gscale', 'countkind', 'reqkind', 'scdtype', 'pre')}
     q['times'] = [t * case.get('gscale', 1) for t in case['times']]
     q['op'] = 'select'
     if 'ok' in impl_res and all(x >= 0 for x in impl_res['ok']['out']):
@@ -89,6 +94,9 @@ def tally(rep, case, impl_res, ans):
         rep.count('subset_with_repeats')
     if 'ok' in ans:
         rep.count('random_choice_needed:%s' % ans['ok']['random'])
+    rep.count('earlier_calls_on_same_selector:%d' % len(case.get('pre', [])))
+    if any(a > b for a, b in zip(case['times'], case['times'][1:])):
+        rep.count('times_not_sorted')
     if {t * case.get('gscale', 1) for t in case['times']} & set(case['bounds']):
         rep.count('spike_on_bound')
     if set(case['req']) - set(case['clusters']):
@@ -117,6 +125,9 @@ def shrink(case):
         yield c
     if case.get('subset') is not None:
         c = dict(case); c['subset'] = None
+        yield c
+    for i in range(len(case.get('pre', []))):
+        c = dict(case); c['pre'] = case['pre'][:i] + case['pre'][i + 1:]
         yield c
 
 
@@ -170,4 +181,15 @@ def gen(tier, rng):
             c['gscale'] = g
             c['bounds'] = sorted(rng.sample(range(0, 31 * g), nb))
             c['times'] = sorted(rng.pick([rng.randrange(0, 31), rng.pick(c['bounds']) // g]) for _ in range(ns))
+        if rng.random() < .25 and ns > 1:
+            # spike times that are not in increasing order of spike id (e.g. stored shank after shank): the property
+            # quantifies over all spike-time vectors and the chunk test is per spike
+            k = rng.randrange(1, ns)
+            c['times'] = c['times'][k:] + c['times'][:k] if rng.random() < .5 else rng.sample(c['times'], ns)
+        if rng.random() < .3 and ns:
+            c['pre'] = []
+            for _ in range(rng.randrange(1, 3)):
+                sub = rng.pick([None, sorted(rng.sample(range(ns), rng.randrange(0, ns + 1)))])
+                c['pre'].append(dict(count=rng.pick([None, 1, 2, 100]), req=rng.pick([req, ids, list(reversed(req))]),
+                                     subset_chunks=rng.pick([True, False, c['subset_chunks']]), subset=sub))
         yield c
